@@ -116,6 +116,19 @@ theorem written_chunk_decodes (c : ColSpec) (hpt : c.ptype ≤ 7) (cats : List C
       acc.count = pages.flatten.length ∧ acc.loose = 0 ∧ acc.reps = List.replicate pages.flatten.length 0 :=
   written_chunk c hpt cats pages hcats hok
 
+/-- **the chunk metadata describes the pages present**: the `encodings` list and the `encoding_stats` the writer model
+    records (compared with what the real writer records by the `wpage.chunk` correspondence) pass the validator's
+    check `encodingsProblem` for every column spec and any number of pages — every page's encoding is listed, every
+    (page type, encoding) kind present is counted, with the exact number of pages, data pages of a v2 chunk under
+    DATA_PAGE_V2. -/
+theorem written_chunk_metadata_describes_pages (c : ColSpec) (cats : List Cell) (pages : List (List Cell)) :
+    encodingsProblem (writerEncodings c) (some (writerEncStats c pages.length))
+      ((writerChunk c cats pages).map (fun x => (x.1.ptypeTag, x.1.encoding))) = none :=
+  written_chunk_meta c cats pages
+
+/-- the check is not vacuous: v2 pages counted as DATA_PAGE (what the writer recorded before repair) are refused -/
+example : (encodingsProblem [0] (some [(0, 0, 2)]) [(3, 0), (3, 0)]).isSome = true := by decide
+
 /-- for a column that is not dictionary-encoded the reader's cells are literally the writer's cells -/
 theorem written_plain_chunk_identity (c : ColSpec) (hd : c.dictItem = none) (cats : List Cell) (cells : List Cell) :
     cells.map (render c cats) = cells := by
